@@ -65,6 +65,22 @@ def scenario(repo, seed, tmpdir, order):
     cids[sim.submit_call(L, "boomc", ("after",), {})] = ("boomc", ("after",), {})
     cids[sim.submit(L, "end")] = ("add", "end")
     sim.run(40)
+    # a committed command whose method id no node knows (e.g. all nodes were restarted without the consumer that owned
+    # it): the KeyError of the lookup is the command's outcome on every replica like any other exception
+    import pysyncobj.pickle as _pk
+
+    def _ghost(who, tag):
+        sim.cb_seq += 1
+        cid = sim.cb_seq
+
+        def cb(res, err, cid=cid, who=who):
+            sim.callbacks.append((who, cid, res, err))
+        sim._call(who, sim.objs[who]._applyCommand, _pk.dumps((9000 + len(cids), (tag,))), cb, 0)
+        return cid
+    cids[_ghost(L, "ghost-at-leader")] = ("<unknown method id>", ("ghost-at-leader",), {})
+    cids[_ghost(F, "ghost-at-follower")] = ("<unknown method id>", ("ghost-at-follower",), {})
+    cids[sim.submit(L, "after-ghost")] = ("add", "after-ghost")
+    sim.run(20)
     # a failing command (with a partial effect), then one replica compacts exactly there and is restarted from dump +
     # journal, then the byte-identical command again: every replica must execute it again (same partial effect)
     cids[sim.submit_call(L, "boom", ("dup",), {})] = ("boom", ("dup",), {})
@@ -111,7 +127,7 @@ def scenario(repo, seed, tmpdir, order):
             viols.append({"signature": "apply-loop:replicas-differ",
                           "what": "node %s state %r, leader %s state %r" % (i, states[i][-6:], L, ref[-6:])})
             break
-    if ("end" not in ref) or ("missed" not in ref) or ("end3" not in ref):
+    if ("end" not in ref) or ("missed" not in ref) or ("end3" not in ref) or ("after-ghost" not in ref):
         viols.append({"signature": "apply-loop:later-command-not-applied", "what": "leader state %r" % (ref[-6:],)})
     return sim, viols, None
 
